@@ -12,9 +12,12 @@ jobs.json = {"jobs": [job, ...]}.  Two job modes (no judging happens here - outc
     outcome and the state it leads to.
  mode "seq": {"cfg": CFG, "ops": [OP...]}  outcome of each op in order on one object.
 
-CFG = {"kind": ARRAY|LIST|BAG|SET, "b1": int, "b2": int|null, "unique": bool, "optional": bool, "base": INTEGER|REAL|STRING}
-OP  = ["set", i, VAL] | ["get", i] | ["add", VAL] | ["q", method_name]        VAL = [type_name, python_value]
-outcome = ["v", type_name, repr] value returned | ["x", exception_class, message]
+CFG = {"kind": ARRAY|LIST|BAG|SET, "b1": int, "b2": int|null, "unique": bool, "optional": bool, "base": T}
+T   = INTEGER|REAL|STRING | [kind, b1, b2, T]  (a nested aggregate declaration, see harness/c19_nest.py)
+OP  = ["set", i, VAL] | ["get", i] | ["add", VAL] | ["q", method_name]
+VAL = [type_name, python_value] | [T, token, "shared"|"separate"]  (aggregate-valued element built by c19_nest.Builder)
+outcome = ["v", type_name, repr] value returned (an element built from a token: ["v", "AGG", token])
+        | ["x", exception_class, message] | ["b", "BuildError", message] the element of the operation could not be built
 """
 import json
 import sys
@@ -22,15 +25,23 @@ import sys
 import stepcode.AggregationDataTypes as A
 from stepcode.SimpleDataTypes import INTEGER, REAL, STRING, Unknown
 
+import c19_nest
+
 TYPES = {'INTEGER': INTEGER, 'REAL': REAL, 'STRING': STRING}
 
 
+BUILDER = [None]        # builder of the container under test (seq mode with a nested base type / aggregate values)
+
+
 def mkval(v):
-    return TYPES[v[0]](v[1])
+    if isinstance(v[0], str):
+        return TYPES[v[0]](v[1])
+    return BUILDER[0].element(v[0], v[1], v[2])
 
 
 def construct(cfg):
-    base = TYPES[cfg['base']]
+    BUILDER[0] = c19_nest.Builder(cfg['base'])
+    base = BUILDER[0].base.obj          # the class for a simple type, the declaration object for an aggregate
     k = cfg['kind']
     if k == 'ARRAY':
         return A.ARRAY(cfg['b1'], cfg['b2'], base, UNIQUE=cfg['unique'], OPTIONAL=cfg['optional'])
@@ -46,6 +57,8 @@ def construct(cfg):
 def enc(r):
     if r is Unknown:
         return ['v', 'LOGICAL', 'Unknown']
+    if BUILDER[0] is not None and id(r) in BUILDER[0].token_of:
+        return ['v', 'AGG', repr(BUILDER[0].token_of[id(r)])]
     return ['v', type(r).__name__, repr(r)]
 
 
@@ -64,6 +77,8 @@ def do(obj, op):
         else:
             raise ValueError(t)
         return enc(r)
+    except c19_nest.BuildError as e:
+        return ['b', 'BuildError', str(e)]
     except Exception as e:                    # the exception class IS the recorded outcome
         return ['x', type(e).__name__, str(e)[:120]]
 
